@@ -16,6 +16,9 @@ type Report struct {
 	First  string // first report block (truncated)
 	Outer  string // pair of outermost entry points
 	Stacks [2][]string
+	// HarnessOnly: no frame of either stack belongs to gohlslib; such a race is a defect of the
+	// monitor, never evidence about the library
+	HarnessOnly bool
 }
 
 var reFunc = regexp.MustCompile(`^\s+(\S+)\(\)$`)
@@ -111,6 +114,14 @@ func Parse(prefix string) ([]*Report, int) {
 				sort.Strings(op)
 				r = &Report{Key: key, First: first, Outer: op[0] + "|" + op[1]}
 				r.Stacks[0], r.Stacks[1] = st[0], st[1]
+				r.HarnessOnly = true
+				for _, stk := range st[:2] {
+					for _, fr := range stk {
+						if strings.Contains(fr, "github.com/bluenviron/gohlslib/") {
+							r.HarnessOnly = false
+						}
+					}
+				}
 				byKey[key] = r
 			}
 			r.Count++
